@@ -1,0 +1,7 @@
+//go:build !verif
+
+package wal
+
+// verifPoint marks a schedule point for the verification harness. It does
+// nothing unless built with the verif tag.
+func verifPoint(string) {}
